@@ -22,11 +22,11 @@ RULE = ('random sequences of 1..12 send-family calls (send, sendline, write, wri
         'must equal exactly the bytes the peer read; return values = bytes written by that call. fd transport on a non-blocking descriptor with a peer that does not read: the return value must be the number of bytes the kernel accepted (FIONREAD), the peer finds exactly those prefixes. non-trivial = sequence '
         'with >=2 calls of >=2 kinds or a payload >= 64 KB; distinct by whole case')
 ASSUMPTIONS = ['the pty peer puts its terminal in raw mode so the line discipline cannot alter or echo bytes',
-               'control-character table taken from the sendcontrol documentation (a-z, @ [ \\ ] ^ _ ?)']
+               'control-character table: a-z in either case, @ [ \\ ] ^ _ ? and the alternative spellings ` { | } ~ that are accepted as well']
 REQUIRED = ['sequences', 'calls', 'bytes_compared', 'return_values_checked', 'transport_pty', 'transport_fd',
             'transport_socket', 'transport_popen', 'control_chars_sent', 'large_payloads', 'short_writes_observed']
 
-CTRL = {'@': 0, '[': 27, '\\': 28, ']': 29, '^': 30, '_': 31, '?': 127}
+CTRL = {'@': 0, '`': 0, '[': 27, '{': 27, '\\': 28, '|': 28, ']': 29, '}': 29, '^': 30, '~': 30, '_': 31, '?': 127}
 for i, ch in enumerate('abcdefghijklmnopqrstuvwxyz'):
     CTRL[ch] = i + 1
 TEXT = ['a', 'Z', ' ', '\n', '\r', '\t', '\xe9', 'ß', '€', '日', '😀', '\x00', '\x7f', '\x1b', 'é']
